@@ -225,6 +225,25 @@ def crashes():
     return behs, meta
 
 
+def midwrite_crashes():
+    """the process is killed by the kernel in the middle of writing a definition (file-size limit): creation, update, user, keys"""
+    behs, meta = [], {}
+    big = json.dumps({"displayName": "big", "description": "z" * 900})
+    for i, (what, e, body) in enumerate((("create", "ngroup", big), ("update", "group", big), ("user", "newuser", json.dumps({"permissions": "present"})),
+                                         ("password", "password", json.dumps("p" * 300)))):
+        for (lim, kill) in ((1, 0), (64, 0), (700, 0), (64, 1), (700, 1)):
+            n = "m%d-%d-%d" % (i, lim, kill)
+            st = [request(n + "-before", "GET", "group", "root"), request(n, "PUT", e, "root", None, body), ["sleep", 30], ["files"],
+                  request(n + "-after", "GET", "group", "root"), request(n + "-new", "GET", e if e in ("ngroup", "group") else "user", "root"), ["files"]]
+            for k in ("-before", "", "-after", "-new"):
+                meta[n + k] = dict(X0, **{"class": "crash" if k == "" else "serve", "g": "g", "addr": "any"})
+            # kill = 0: the write fails (EFBIG) and the handler has to clean up; kill = 1: the process dies at that write
+            behs.append({"name": "midwrite-%s-%s-%d" % ("crash" if kill else "error", what, lim), "fixture": fixture(), "steps": st, "fsize": lim, "fkill": bool(kill), "expect_dead": kill})
+            if not kill:
+                meta[n] = dict(meta[n], **{"class": "serve"})
+    return behs, meta
+
+
 def whips():
     st = [["whip", "w1", "g", "whiptok", "", ""], ["whipreq", "w1", "PATCH", "none", "whiptok"], ["whipreq", "w1", "DELETE", "wrong", "whiptok"],
           ["whipreq", "w1", "DELETE", "none", "whiptok"], ["http", "stats", "GET", "/galene-api/v0/.stats", {}, "", "root", S1],
@@ -294,7 +313,7 @@ def run_table(rep, w, tier, pid, replay=None):
             raise C.Inconclusive("no API rows enumerated")
         behs, meta = table_behaviours(rows)
         RACE_WRITES[0] = 1500 if thorough else 150
-        more = [sequences(C.seed(), 40 if thorough else 10), crashes(), whips()]
+        more = [sequences(C.seed(), 40 if thorough else 10), crashes(), midwrite_crashes(), whips()]
         if pid == "C12":
             more.append(fuzz(C.seed(), 1500 if thorough else 300))
         for (bs, mt) in more:
